@@ -1,11 +1,35 @@
 """Some tools."""
 
-from typing import List
+import re
+from typing import List, Union
+
+STRING_EXPR = re.compile(r'"(?:[^"\\]|\\.)*"', re.S)
+
+
+def unquote_string(string: str) -> str:
+    """Return the value of a quoted string (escapes are removed)."""
+    if len(string) > 1 and string[0] == '"' == string[-1]:
+        return re.sub(r"\\(.)", r"\1", string[1:-1], flags=re.S)
+    return string
 
 
 def to_list(stringlist: str, unquote: bool = True) -> List[str]:
     """Convert a string representing a list to real list."""
-    stringlist = stringlist[1:-1]
     return [
-        string.strip('"') if unquote else string for string in stringlist.split(",")
+        unquote_string(string) if unquote else string
+        for string in STRING_EXPR.findall(stringlist)
     ]
+
+
+def to_values(value: Union[str, List[str]]) -> List[str]:
+    """Return the values of a string or string list argument.
+
+    Arguments come either from the parser (a quoted string or a list
+    of quoted strings) or from the factory (a quoted string or the
+    textual representation of a string list).
+    """
+    if isinstance(value, list):
+        return [unquote_string(item) for item in value]
+    if value.startswith("["):
+        return to_list(value)
+    return [unquote_string(value)]
